@@ -67,7 +67,7 @@ def run(R):
         R.bounds = {'keys': 2, 'num_slots': '1..2', 'lifetime': '1..4', 'tasks': 2, 'steps': 'k=4', 'clock increment': '0..6'}
     else:
         pct = 1300
-        groups = [group(3, 4, 0, {'a1': A1, 'a2': A2, 'd0': B, 'd1': B}), group(2, 5, 0, {'a1': A1, 'a2': A2, 'd0': B, 'd1': B}),
+        groups = [group(3, 4, 0, {'a1': A1, 'd0': B, 'd1': B, 'slots': [1, 2]}), group(2, 5, 0, {'a1': A1, 'a2': A2, 'd0': B, 'd1': B}),
                   group(3, 3, 1, {'d0': B}), group(3, 3, 2, {'d0': B}), group(2, 4, 1, {'d0': B, 'd1': B}), group(2, 4, 2, {'d0': B, 'd1': B})]
         R.bounds = {'keys': 2, 'num_slots': '1..2', 'lifetime': '1..4', 'shapes': '(3 tasks, k=4), (2 tasks, k=5)', 'clock increment': '0..6'}
     R.assume('prometheus_client metrics are inert; prometheus_async.aio.time(metric, future) (package absent from the sandbox) is '
